@@ -166,6 +166,9 @@ def gen_spectrum(rng, n, sweeps, order, grid, same=False):
             else:
                 re = float(rng.choice([-1, 1])) * float(10.0 ** rng.uniform(-6, 6))
                 im = float(rng.choice([-1, 1])) * float(10.0 ** rng.uniform(-6, 6))
+            if grid == "whole" and n >= 3 and k == 1:
+                # a point whose real or imaginary part is exactly zero (a resonance, an ideal capacitor): a measured point like any other
+                re, im = (0.0, im) if (n + len(out)) % 2 == 0 else (re, 0.0)
             z.append(complex(re, im))
         out.append(list(zip(f, z)))
     if same:
